@@ -30,6 +30,7 @@ pub fn outs(s: u64) -> Vec<pc::Variable> {
 }
 pub fn ins(s: u64) -> Vec<pc::Variable> {
     let mut v = outs(s);
+    v.push(v_ram(0x2010, s)); // a second RAM operand, so that two RAM inputs of one instruction differ
     v.push(v_const(1, s));
     v.push(v_const(mcx::refsem::ops::mask(s as u32) - 1, s));
     v
